@@ -97,8 +97,10 @@ class TcrLevenshtein(TcrMetric):
 
     def _expand_v_gene_cdrs(self, df: DataFrame) -> DataFrame:
         df = df.copy()
-        df[["CDR1A", "CDR2A"]] = self._get_cdrs_from_v_genes(df.TRAV)
-        df[["CDR1B", "CDR2B"]] = self._get_cdrs_from_v_genes(df.TRBV)
+        if "TRAV" in df:
+            df[["CDR1A", "CDR2A"]] = self._get_cdrs_from_v_genes(df.TRAV)
+        if "TRBV" in df:
+            df[["CDR1B", "CDR2B"]] = self._get_cdrs_from_v_genes(df.TRBV)
         return df
 
     def _get_cdrs_from_v_genes(self, v_genes: Series) -> DataFrame:
